@@ -12,9 +12,9 @@
    MODEL ONLY (no proofs).  A Go panic inside a handler is the explicit outcome
    [HPanic]; the panic barrier of callInterfaceFunc turns it into an error reply.
 
-   The decoded request object.  The pinned code allocates ONE value [val0] per
-   REST registration (processor.go:226) and decodes every request into it; the
-   planned fix allocates it per request.  [fix_f17 = false] is the pinned code:
+   The decoded request object.  Before commit 599dc98 (F17) the code allocated ONE
+   value [val0] per REST registration and decoded every request into it; since then
+   it is allocated per request.  [fix_f17 = false] is the code before the repair:
    the registration owns a cell [msg] that survives from request to request.
    encoding/json decodes an object INTO an existing struct as a sequence of
    field writes (absent fields are left alone), which is what [resolve] /
@@ -376,7 +376,7 @@ Definition ws_handle (hs : list (hkind * nat)) (q : wreq) : reply :=
   end.
 
 (* Client.Send on a destination whose kept connection is in state [dead].
-   The pinned client leaves a connection that the server closed in its table, so
+   Before commit d8eab8f (F28) the client left a connection that the server closed in its table, so
    a keeping client fails every later request on it ("close sent") without
    reaching the server; [fix_keep] drops the connection after a failed request. *)
 Definition client_send (fix_keep keep : bool) (hs : list (hkind * nat)) (dead : bool) (q : wreq) : bool * reply :=
